@@ -10,17 +10,106 @@ package meta_test
 
 import (
 	"fmt"
+	"io"
+	"log"
+	"net"
 	"os"
 	"sort"
+	"strings"
 	"testing"
 	"time"
 
 	"github.com/influxdata/influxdb/coordinator"
 	"github.com/influxdata/influxdb/models"
 	"github.com/influxdata/influxdb/services/meta"
+	"github.com/influxdata/influxdb/tcp"
+	"github.com/influxdata/influxdb/toml"
 	"pgregory.net/rapid"
 	"verifkit"
 )
+
+// vC08Bed is one single-server meta service with one client, configured as the package's own
+// newServiceAndClient configures them. That helper is not used: it takes its two listen addresses from two
+// successive probes of "127.0.0.1:0", which return the same port about once in 5500 pairs, and panics when
+// the service then cannot open its second listener (observed as a rapid "flaky test" failure of a case that
+// had not drawn anything yet, DESIGN.md section 8.8). Starting the bed is not part of the property: a start
+// that fails is repeated with fresh addresses.
+type vC08Bed struct {
+	dir string
+	ln  net.Listener
+	svc *meta.Service
+	cli *meta.Client
+}
+
+func (b *vC08Bed) close() {
+	if b.cli != nil {
+		b.cli.Close()
+	}
+	if b.svc != nil {
+		b.svc.Close()
+	}
+	if b.ln != nil {
+		b.ln.Close()
+	}
+	os.RemoveAll(b.dir)
+}
+
+func vC08StartBedOnce() (bed *vC08Bed, err error) {
+	cfg := meta.NewConfig()
+	cfg.BindAddress = verifkit.FreeAddr()
+	cfg.HTTPBindAddress = verifkit.FreeAddr()
+	cfg.LeaseDuration = toml.Duration(time.Second)
+	cfg.SingleServer = true
+	if cfg.Dir, err = os.MkdirTemp("", "c08client"); err != nil {
+		return nil, err
+	}
+	b := &vC08Bed{dir: cfg.Dir}
+	defer func() {
+		if r := recover(); r != nil {
+			err = fmt.Errorf("panic while starting the bed: %v", r)
+		}
+		if err != nil {
+			b.close()
+			bed = nil
+		}
+	}()
+	if b.ln, err = net.Listen("tcp", cfg.BindAddress); err != nil {
+		return nil, err
+	}
+	mux := tcp.NewMux()
+	mux.Logger = log.New(io.Discard, "", 0)
+	s := meta.NewService(cfg)
+	s.RaftListener = mux.Listen(meta.MuxHeader)
+	go mux.Serve(b.ln)
+	if err = s.Open(); err != nil {
+		// the service holds no handler or store to close yet
+		s.RaftListener.Close()
+		return nil, err
+	}
+	b.svc = s
+	c := meta.NewClient(cfg)
+	c.SetMetaServers([]string{cfg.HTTPBindAddress})
+	if err = c.Open(); err != nil {
+		return nil, err
+	}
+	b.cli = c
+	return b, nil
+}
+
+// vC08StartBed tries fresh addresses a few times; what it reports afterwards is a failure of the bed.
+func vC08StartBed() (*vC08Bed, int, error) {
+	var err error
+	for try := 0; try < 5; try++ {
+		var b *vC08Bed
+		if b, err = vC08StartBedOnce(); err == nil {
+			return b, try, nil
+		}
+		if !strings.Contains(err.Error(), "address already in use") {
+			break
+		}
+	}
+	return nil, 0, err
+}
 
 func vC08Accepts(sg *meta.ShardGroupInfo, ts time.Time) bool {
 	if sg == nil || sg.Deleted() || !sg.Contains(ts) {
@@ -34,10 +123,15 @@ func TestVerifC08ClientShardGroups(t *testing.T) {
 		"a real single-node meta service and meta.Client: histories of 4..14 steps out of CreateShardGroup(ts), truncate-shards(T), DeleteShardGroup, ALTER shard group duration (1h/6h/1d) and MapShards of a 1..8-point batch through coordinator.PointsWriter with the real client, with timestamps from a pool of half-hour marks over 36 hours plus every truncation time -1ns/0/+1ns. Oracle: the group the client hands out for ts is live, contains ts and is not truncated at or before ts; asking again gives the same group; every mapped point sits in a shard of such a group and none is dropped (infinite retention); live groups stay pairwise disjoint. non-trivial = a group was requested or a point mapped at or after a truncation time inside a truncated group's original range; distinct = action sequence")
 	defer st.Flush()
 	rapid.Check(t, func(rt *rapid.T) {
-		d, s, c := newServiceAndClient()
-		defer os.RemoveAll(d)
-		defer s.Close()
-		defer c.Close()
+		bed, restarts, err := vC08StartBed()
+		if err != nil {
+			rt.Fatalf("VERIF-INCONCLUSIVE harness: the meta service and client of the bed did not start: %v", err)
+		}
+		defer bed.close()
+		if restarts > 0 {
+			st.Class("bed-start-repeated:address-in-use", int64(restarts))
+		}
+		c := bed.cli
 		for i := 0; i < rapid.IntRange(1, 3).Draw(rt, "dataNodes"); i++ {
 			if _, err := c.CreateDataNode(fmt.Sprintf("h%d:8086", i), fmt.Sprintf("h%d:8088", i)); err != nil {
 				rt.Fatalf("VERIF-INCONCLUSIVE harness: CreateDataNode: %v", err)
